@@ -15,6 +15,8 @@ Sub-properties
            prior dictionaries: both fits obey the oracle and agree with each other.
   corrfit  Corr.fit: inclusive fit range (argument, prange or all timeslices), undefined timeslices skipped,
            result equals the GLS solution on exactly those timeslices.
+  chain    2-3 fits in one process that are handed identical 'value(err)' prior strings, a parameter of the earlier
+           fit being a datum of the later one: each fit's priors are its own independent Gaussian inputs.
 """
 import math
 
@@ -986,6 +988,95 @@ def corrfit_oracle(spec):
     return {'nt': skipped_inside or spec['correlated'] or spec['how'] != 'all', 'cls': sorted(labs)}
 
 
+# ---------------------------------------------------------------------------------------------- chained fits (history)
+# Priors given as 'value(err)' strings are independent Gaussian inputs of *that* fit.  A later fit of the same process that
+# is handed the same strings (and, as a data point, a parameter of the earlier fit) has its own, independent prior rows:
+# its parameters are the GLS combination of the data (with everything they inherited) and of fresh prior inputs.
+
+@st.composite
+def chain_case(draw, tier):
+    n = draw(st.integers(3, 6))
+    xs = sorted(draw(st.lists(st.integers(-20, 40), min_size=n, max_size=n, unique=True)))
+    nfit = draw(st.integers(2, 3))
+    which = draw(st.sampled_from(['both', 'p0', 'p1']))
+    pri = {}
+    if which in ('both', 'p0'):
+        pri[0] = (draw(st.integers(-30, 30)) / 10.0, draw(st.integers(5, 60)))
+    if which in ('both', 'p1'):
+        pri[1] = (draw(st.integers(-30, 30)) / 10.0, draw(st.integers(5, 60)))
+    return {'x': [v / 10.0 for v in xs], 'nfit': nfit, 'priors': {str(k): list(v) for k, v in pri.items()},
+            'form': draw(st.sampled_from(['list', 'dict'])) if which == 'both' else 'dict',
+            'carry': [draw(st.integers(0, 1)) for _ in range(nfit - 1)], 'slot': [draw(st.integers(0, n - 1)) for _ in range(nfit - 1)],
+            'a': [draw(st.integers(-20, 20)) / 10.0, draw(st.integers(-20, 20)) / 10.0],
+            'seed': draw(st.integers(0, 10 ** 6)), 'N': draw(st.integers(20, 60)), 'sig': draw(st.sampled_from([0.05, 0.2, 0.5]))}
+
+
+def chain_oracle(spec):
+    import pyerrors as pe
+    rng = np.random.RandomState(spec['seed'])
+    x = np.array(spec['x'])
+    n = len(x)
+    pri = {int(k): (float(v[0]), int(v[1])) for k, v in spec['priors'].items()}
+    strings = {k: '%.1f(%d)' % (v, e) for k, (v, e) in pri.items()}          # 'value(err)': err in units of the last digit
+    pval = {k: float('%.1f' % v) for k, (v, e) in pri.items()}
+    perr = {k: e * 0.1 for k, (v, e) in pri.items()}
+    parg = [strings[0], strings[1]] if spec['form'] == 'list' else {k: strings[k] for k in sorted(strings)}
+
+    def func(a, x):
+        return a[0] + a[1] * x
+
+    A = np.stack([np.ones(n), x], axis=1)
+    prev = None
+    seen_prior_names = set()
+    for j in range(spec['nfit']):
+        ys = []
+        for i in range(n):
+            ys.append(pe.Obs([spec['a'][0] + spec['a'][1] * x[i] + spec['sig'] * rng.normal(size=spec['N'])], ['CH%d' % j]))
+        if prev is not None:
+            ys[spec['slot'][j - 1]] = prev[spec['carry'][j - 1]] * 1.0
+        for o in ys:
+            o.gamma_method(S=0)
+        dy = np.array([o.dvalue for o in ys])
+        if not np.all(dy > 0):
+            raise Skip('input without error')
+        res = pe.least_squares(x, ys, func, priors=parg, silent=True)
+        # closed form with fresh, independent prior inputs
+        ks = sorted(pri)
+        W = np.diag(1.0 / dy ** 2)
+        H = A.T @ W @ A
+        for k in ks:
+            H[k, k] += 1.0 / perr[k] ** 2
+        if np.linalg.cond(H) > 1e8:
+            raise Skip('ill-conditioned normal equations')
+        Hi = np.linalg.inv(H)
+        My = Hi @ A.T @ W                      # 2 x n
+        fresh = {k: pe.cov_Obs(pval[k], perr[k] ** 2, 'refprior%d_%d' % (j, k)) for k in ks}
+        sig_p = np.sqrt(np.diag(Hi))
+        for q in range(2):
+            ref = None
+            for i in range(n):
+                t = float(My[q, i]) * ys[i]
+                ref = t if ref is None else ref + t
+            for k in ks:
+                ref = ref + float(Hi[q, k] / perr[k] ** 2) * fresh[k]
+            ref.gamma_method(S=0)
+            r = res[q]
+            r.gamma_method(S=0)
+            what = 'fit %d of the process, parameter %d (priors %r)' % (j + 1, q, parg)
+            require(abs(r.value - ref.value) <= 1e-5 * sig_p[q] * (1 + math.sqrt(max(res.chisquare, 0.0))), what + ': value %r, GLS %r' % (r.value, ref.value))
+            require(abs(r.dvalue - ref.dvalue) <= 1e-6 * ref.dvalue, what + ': error %r, GLS with independent prior inputs gives %r (covariance inputs %r)'
+                    % (r.dvalue, ref.dvalue, sorted(r.cov_names)))
+            mine = set(nm for nm in r.cov_names if nm.startswith('#prior'))
+            inherited = set(nm for o in ys for nm in o.cov_names if nm.startswith('#prior'))
+            new = mine - inherited
+            require(len(new) == len(ks), what + ': %d new prior inputs in the result, the fit has %d prior rows (inherited %r, result %r)'
+                    % (len(new), len(ks), sorted(inherited), sorted(mine)))
+            require(not (new & seen_prior_names), what + ': prior inputs of an earlier fit re-used: %r' % sorted(new & seen_prior_names))
+        seen_prior_names |= set(nm for q in range(2) for nm in res[q].cov_names if nm.startswith('#prior'))
+        prev = res
+    return {'nt': True, 'cls': ['fits:%d' % spec['nfit'], 'priors:' + '+'.join(str(k) for k in sorted(pri)), 'form:' + spec['form']]}
+
+
 SUBS = [
     Sub('gls', lambda tier: fit_case(tier), gls_oracle, {'quick': 150, 'thorough': 2500}, {'quick': 10, 'thorough': 16},
         doc='Levenberg-Marquardt fits vs closed-form GLS: values, fluctuations, gradients, chisquare, dof, p-values', max_skip_frac=0.2),
@@ -995,4 +1086,7 @@ SUBS = [
         doc='permutation of data points and of dictionary insertion orders', max_skip_frac=0.2),
     Sub('corrfit', corrfit_case, corrfit_oracle, {'quick': 150, 'thorough': 1500}, {'quick': 1, 'thorough': 4},
         doc='Corr.fit: inclusive range, undefined timeslices skipped, equals GLS on those timeslices', max_skip_frac=0.25),
+    Sub('chain', chain_case, chain_oracle, {'quick': 60, 'thorough': 1500}, {'quick': 1, 'thorough': 4},
+        doc='2-3 fits in one process with identical prior strings, a parameter of the earlier fit as datum of the later: '
+            'every fit has its own independent prior inputs (GLS with fresh covariance inputs)', max_skip_frac=0.3),
 ]
